@@ -64,7 +64,7 @@ Definition tkin (base : PV) (t : tree gjoint) : tree (gjoint * PV) := outward ts
 Definition pose_ok (pv : PV) : Prop := is_rot (fst (fst pv 0)) /\ moves_with (fst pv) (snd pv).
 
 Theorem compose_jet (t : tree gjoint) (base : PV) : pose_ok base ->
-  Forall (fun jb => pose_ok (snd jb)) (flatten (tkin base t)).
+  List.Forall (fun jb => pose_ok (snd jb)) (flatten (tkin base t)).
 Proof. unfold tkin. apply (outward_inv tstep pose_ok). intros b [j [A [B [C D]]]] [Hr Hm]. unfold tstep, pose_ok. cbn [proj1_sig fst snd]. split.
   - unfold pose_step. cbn [xf_compose fst]. repeat apply rot_mul; auto.
   - apply step_jet; auto. Qed.
@@ -101,7 +101,7 @@ Proof. d3v w. apply NInvQ_NQ. Qed.
 (** N NInv is the identity on the velocity image (the tangent space of the unit sphere) *)
 Lemma Ball_N_NInv_q e0 e1 e2 e3' w : e0*e0+e1*e1+e2*e2+e3'*e3' = 1 ->
   let qd := Ball_Nq ROps (e0,e1,e2,e3') w in Ball_Nq ROps (e0,e1,e2,e3') (Ball_NInvq ROps (e0,e1,e2,e3') qd) = qd.
-Proof. intros Hn qd. subst qd. d3v w. rewrite (NInvQ_NQ e0 e1 e2 e3'). rewrite Hn. f_equal. vunf. teq; ring. Qed.
+Proof. intros Hn qd. subst qd. d3v w. unfold Ball_Nq, Ball_NInvq. rewrite (NInvQ_NQ e0 e1 e2 e3'). rewrite Hn. f_equal. vunf. teq; ring. Qed.
 Lemma Line_NInv_N_e q0 q1 q2 u0 u1 : cos q1 <> 0 -> Line_NInve ROps (q0,q1,q2) (Line_Ne ROps (q0,q1,q2) (u0,u1)) = (u0,u1).
 Proof. intros Hc. unfold Line_NInve, Line_Ne. rewrite <- mulv_assoc, (NInvB_NB_q q0 q1 q2 Hc), mulv_I. reflexivity. Qed.
 Lemma Line_NInv_N_q e0 e1 e2 e3' u0 u1 : e0*e0+e1*e1+e2*e2+e3'*e3' = 1 ->
@@ -119,7 +119,7 @@ Proof. intros Hn qd. subst qd. rewrite Line_NInv_N_q by auto. reflexivity. Qed.
 Lemma Ball_NDot_jet_e q0 q1 q2 d0 d1 d2 w : cos q1 <> 0 ->
   dV (fun t => Ball_Ne ROps (q0+t*d0, q1+t*d1, q2+t*d2) w) (Ball_NDote ROps (q0,q1,q2) (d0,d1,d2) w).
 Proof. intros Hc. unfold Ball_Ne, Ball_NDote.
-  eapply dV_eq; [ apply (dM_mulv (fun t => cNP_q ROps (q0+t*d0, q1+t*d1, q2+t*d2)) (fun _ => w) (cNDotP_q ROps (q0,q1,q2) (d0,d1,d2)) _) | ].
+  eapply dV_eq; [ apply (dM_mulv (fun t => cNP_q ROps (q0+t*d0, q1+t*d1, q2+t*d2)) (fun _ => w) (cNDotP_q ROps (q0,q1,q2) (d0,d1,d2)) (v3_sub ROps w w)) | ].
   - intros i j Hi Hj. apply NDotP_is_jet; auto.
   - apply dV_const.
   - cbv beta. generalize (cNDotP_q ROps (q0, q1, q2) (d0, d1, d2)) (cNP_q ROps (q0 + 0 * d0, q1 + 0 * d1, q2 + 0 * d2)). intros A B.
@@ -127,7 +127,7 @@ Proof. intros Hc. unfold Ball_Ne, Ball_NDote.
 Lemma Line_NDot_jet_e q0 q1 q2 d0 d1 d2 u : cos q1 <> 0 ->
   dV (fun t => Line_Ne ROps (q0+t*d0, q1+t*d1, q2+t*d2) u) (Line_NDote ROps (q0,q1,q2) (d0,d1,d2) u).
 Proof. intros Hc. unfold Line_Ne, Line_NDote.
-  eapply dV_eq; [ apply (dM_mulv (fun t => cNB_q ROps (q0+t*d0, q1+t*d1, q2+t*d2)) (fun _ => up3 ROps u) (cNDotB_q ROps (q0,q1,q2) (d0,d1,d2)) _) | ].
+  eapply dV_eq; [ apply (dM_mulv (fun t => cNB_q ROps (q0+t*d0, q1+t*d1, q2+t*d2)) (fun _ => up3 ROps u) (cNDotB_q ROps (q0,q1,q2) (d0,d1,d2)) (v3_sub ROps (up3 ROps u) (up3 ROps u))) | ].
   - intros i j Hi Hj. apply NDotB_is_jet; auto.
   - apply dV_const.
   - cbv beta. generalize (cNDotB_q ROps (q0, q1, q2) (d0, d1, d2)) (cNB_q ROps (q0 + 0 * d0, q1 + 0 * d1, q2 + 0 * d2)) (up3 ROps u). intros A B w.
@@ -152,8 +152,9 @@ Proof. intros Hi Hn qd; subst qd. assert (Hz : e0*e0+e1*e1+e2*e2+e3'*e3' <> 0) b
   (auto_derive; [ repeat split; rewrite ?Rmult_0_l, ?Rplus_0_r; auto
                 | rewrite ?Rmult_0_l, ?Rplus_0_r; field_simplify_eq; auto; cbv [Rpow_def.pow]; nsatz_or_fail ]). Qed.
 (** what multiplyByNDot implements (N_Q(qdot) R only) agrees with it on the current speeds ... *)
-Lemma Line_NDot_impl_on_u e ed u : Line_NDotq_impl ROps e ed u = Line_NDotq_true e ed u u.
-Proof. destruct e as [[[e0 e1] e2] e3']. destruct ed as [[[d0 d1] d2] d3]. destruct u as [u0 u1]. unfold Line_NDotq_true. cunf. teq; field. Qed.
+Lemma Line_NDot_impl_on_u e0 e1 e2 e3' ed u : e0*e0+e1*e1+e2*e2+e3'*e3' <> 0 ->
+  Line_NDotq_impl ROps (e0,e1,e2,e3') ed u = Line_NDotq_true (e0,e1,e2,e3') ed u u.
+Proof. intros Hn. destruct ed as [[[d0 d1] d2] d3]. destruct u as [u0 u1]. unfold Line_NDotq_true. cunf. teq; field; auto. Qed.
 (** ... but not on other vectors: as an operator it is NOT the time derivative of N.
     Witness: q = identity, u = (1,0), v = (0,1). *)
 Lemma Line_NDot_impl_refuted : exists e u v, v4_normSqr ROps e = 1 /\
@@ -168,7 +169,8 @@ Lemma qdd_jet_e q0 q1 q2 w b : cos q1 <> 0 ->
   dV (fun t => Ball_Ne ROps (q0 + t*v3_0 qd, q1 + t*v3_1 qd, q2 + t*v3_2 qd) (v3_0 w + t * v3_0 b, v3_1 w + t * v3_1 b, v3_2 w + t * v3_2 b))
      (v3_add ROps (Ball_Ne ROps (q0,q1,q2) b) (Ball_NDote ROps (q0,q1,q2) qd w)).
 Proof. intros Hc qd. destruct qd as [[d0 d1] d2]. cbv [v3_0 v3_1 v3_2]. unfold Ball_Ne, Ball_NDote.
-  eapply dV_eq; [ apply (dM_mulv (fun t => cNP_q ROps (q0+t*d0, q1+t*d1, q2+t*d2)) _ (cNDotP_q ROps (q0,q1,q2) (d0,d1,d2)) _) | ].
+  eapply dV_eq; [ apply (dM_mulv (fun t => cNP_q ROps (q0+t*d0, q1+t*d1, q2+t*d2))
+                                  (fun t => (v3_0 w + t * v3_0 b, v3_1 w + t * v3_1 b, v3_2 w + t * v3_2 b)) (cNDotP_q ROps (q0,q1,q2) (d0,d1,d2)) b) | ].
   - intros i j Hi Hj. apply NDotP_is_jet; auto.
   - apply (dV_affine w b).
   - cbv beta. rewrite !Rmult_0_l, !Rplus_0_r. generalize (cNDotP_q ROps (q0, q1, q2) (d0, d1, d2)) (cNP_q ROps (q0, q1, q2)). intros A B.
@@ -214,5 +216,7 @@ Proof. unfold Line_NInve, Line_NInvTe. generalize (cNInvB_q ROps a). intros A. d
 (** non-vacuity: a rigid frame, a moving catalogue joint, a one-joint tree *)
 Example C03_joint_exists : exists j : tjoint, tjoint_ok j /\ t_V j <> ((0,0,0),(0,0,0)).
 Proof. exists (mkTJ (RotX ROps 1, (1,2,3)) (RotY ROps 2, (0,1,0)) (fun t => Pin_X ROps (1 + t*2)) (Hu ROps (Pin_H ROps) (2 :: nil))).
-  split; [ repeat split; cbn [t_XPF t_XMB t_X t_V fst]; try apply RotX_rot; try apply RotY_rot; try apply Pin_rot; apply (Pin_jet 1 2) | ].
-  cbn [t_V]. cunf. intros C. injection C; intros. lra. Qed.
+  split.
+  - unfold tjoint_ok. cbn [t_XPF t_XMB t_X t_V fst].
+    split; [ apply RotX_rot | ]. split; [ apply RotY_rot | ]. split; [ apply (Pin_rot (1 + 0 * 2)) | apply (Pin_jet 1 2) ].
+  - cbn [t_V]. intros C. revert C. cunf. intros C. injection C; intros. lra. Qed.
